@@ -129,7 +129,7 @@ func buildNode(obj slip.Object, p *slip.Printer) (node Node) {
 	case slip.Funky:
 		node = buildCall(slip.Symbol(to.GetName()), to.GetArgs(), p)
 	case slip.Symbol:
-		node = &Leaf{text: []byte(to)}
+		node = &Leaf{text: to.Readably(nil, p)}
 	case slip.LoadFormer:
 		form := to.LoadForm()
 		if dl, _ := form.(slip.List); 0 < len(dl) {
